@@ -755,9 +755,15 @@ class _World:
         self.prims = []
         if ab and not os.path.isdir(os.path.join(link, 'data')):
             ab = False          # pid1 cannot abort in a container that does not exist
-        monitor.MonitorContainerCleanup(self.env, {}).execute(
+        acked = monitor.MonitorContainerCleanup(self.env, {}).execute(
             {'id': name, 'signal': 6 if ab else 0, 'return_code': 0, 'path': link, 'timestamp': 0})
         post = self.snap()
+        if not acked:
+            # `Monitor.run` deletes a tombstone only when its action returns true: an unacknowledged tombstone is
+            # replayed when the monitor restarts, against whatever container then runs under the instance's name
+            self.run.hits.append(fw.Hit(clause='tombstone-not-acknowledged', call_site='MonitorContainerCleanup.execute',
+                                        detail='execute() returned %r for %s (running link %s)' % (
+                                            acked, name, 'present' if os.path.lexists(link) else 'gone')))
         self.emit('finish %d %d' % (i, 1 if ab else 0), post,
                   monitor_single_ref(post, self.prims, self.orig_app_name, 'env:finish'))
 
